@@ -55,6 +55,8 @@ type c15Anchors struct {
 	marshal, unmarshal *ast.CallExpr
 	helper             *kit.Func // recursive export helper
 	helperNode         *types.Var
+	helperIn           *types.Var // by-value shape: the NodeEdge parameter the returned NodeEdgeChildren is built from
+	helperByValue      bool
 	replacer           *kit.Func // function (literal) that holds the map accesses
 	replacerOuter      map[*kit.Func]bool
 	replHelpers        []*kit.Func // same-package helpers of the replacer that look up / generate ids
@@ -285,20 +287,34 @@ func c15Find(c *kit.Ctx) *c15Anchors {
 				np = p
 			}
 		}
+		// by-value shape: takes a NodeEdge, returns the finished NodeEdgeChildren
+		var in, res *types.Var
 		if np == nil {
-			continue
+			for _, p := range f.Params() {
+				if _, isPtr := p.Type().(*types.Pointer); !isPtr && kit.IsNamedType(p.Type(), dataPkg, "NodeEdge") {
+					in = p
+				}
+			}
+			res = c15ResultNEC(f)
+			if in == nil || res == nil {
+				continue
+			}
 		}
 		for _, call := range f.AllCalls(false) {
 			if f.CalleeFunc(call) == f {
 				if a.helper != nil && a.helper != f {
 					c.Fatalf("two recursive export helpers: %s and %s", a.helper.Name, f.Name)
 				}
-				a.helper, a.helperNode = f, np
+				if np != nil {
+					a.helper, a.helperNode = f, np
+				} else {
+					a.helper, a.helperNode, a.helperIn, a.helperByValue = f, res, in, true
+				}
 			}
 		}
 	}
 	if a.helper == nil {
-		c.Fatalf("recursive export helper (takes *data.NodeEdgeChildren, calls itself) not reachable from %s", a.exporter.Name)
+		c.Fatalf("recursive export helper (calls itself; takes *data.NodeEdgeChildren, or takes a data.NodeEdge and returns the data.NodeEdgeChildren) not reachable from %s", a.exporter.Name)
 	}
 	// replacer: a self-recursive function on a *NodeEdgeChildren that — itself or
 	// through same-package helpers (depth <= 2) — indexes a map[string]string
@@ -542,7 +558,7 @@ func c15HelperLoop(c *kit.Ctx, a *c15Anchors, r1 *kit.Rule) {
 	f := a.helper
 	info := f.Info()
 	N := a.helperNode
-	isN := c15IsVar(info, N)
+	isN := a.helperIsNode()
 	var listCall *ast.CallExpr
 	var listVar types.Object
 	ast.Inspect(f.Body, func(n ast.Node) bool {
@@ -632,6 +648,15 @@ func c15HelperLoop(c *kit.Ctx, a *c15Anchors, r1 *kit.Rule) {
 		if f.CalleeFunc(call) == a.list && call == listCall {
 			return []kit.S{s.Set("lst", "1")}
 		}
+		if f.CalleeFunc(call) == f && s.Get("it") == "1" && a.helperByValue {
+			for _, arg := range call.Args {
+				if elemOf(s, arg) {
+					return []kit.S{s.Set("recel", "1")}
+				}
+			}
+			m.undec("the recursive call %s is not made on the loop element", f.Str(call))
+			return nil
+		}
 		if f.CalleeFunc(call) == f && s.Get("it") == "1" {
 			for _, arg := range call.Args {
 				if u, ok := ast.Unparen(arg).(*ast.UnaryExpr); ok && u.Op == token.AND {
@@ -658,6 +683,17 @@ func c15HelperLoop(c *kit.Ctx, a *c15Anchors, r1 *kit.Rule) {
 	}
 	st.OnNode = func(n ast.Node, s kit.S) []kit.S {
 		as, ok := n.(*ast.AssignStmt)
+		// child, err := helper(nc, elem): the finished child comes back by value
+		if ok && len(as.Rhs) == 1 && s.Get("recel") == "1" {
+			if call, isCall := ast.Unparen(as.Rhs[0]).(*ast.CallExpr); isCall && f.CalleeFunc(call) == f {
+				s = s.Del("recel")
+				if o := kit.ObjOf(info, as.Lhs[0]); o != nil && c15IsNEC(o.Type()) {
+					return []kit.S{s.Set("x", kit.VarID(o)).Set("rec", "1").Del("app")}
+				}
+				m.undec("%s: the exported child is not kept in a variable", f.Str(as))
+				return []kit.S{s}
+			}
+		}
 		if !ok || len(as.Lhs) != 1 || len(as.Rhs) != 1 {
 			return []kit.S{s}
 		}
@@ -728,6 +764,8 @@ func c15HelperLoop(c *kit.Ctx, a *c15Anchors, r1 *kit.Rule) {
 			m.viol("the loop over the children can be left early (%s at %s): the remaining children are not exported", what, at)
 		case e.State.Get("done") != "1":
 			m.viol("%s can return without signalling an error at %s although it has not listed and visited the children", f.Name, at)
+		case a.helperByValue && e.Return != nil && len(e.Return.Results) > 0 && kit.ObjOf(info, e.Return.Results[0]) != N:
+			m.undec("%s returns %s at %s, not the node it built (%s)", f.Name, f.Str(e.Return.Results[0]), at, N.Name())
 		default:
 			nOK++
 		}
@@ -768,7 +806,9 @@ func c15ExporterRoot(c *kit.Ctx, a *c15Anchors, r1 *kit.Rule) {
 					}
 				}
 			}
-			m.undec("%s: the helper is not called on the address of a local NodeEdgeChildren", f.Str(call))
+			if !a.helperByValue {
+				m.undec("%s: the helper is not called on the address of a local NodeEdgeChildren", f.Str(call))
+			}
 		}
 		if call == a.marshal {
 			reached = true
@@ -795,6 +835,15 @@ func c15ExporterRoot(c *kit.Ctx, a *c15Anchors, r1 *kit.Rule) {
 				}
 			}
 			return []kit.S{s}
+		}
+		if a.helperByValue && len(as.Rhs) == 1 {
+			if call, isCall := ast.Unparen(as.Rhs[0]).(*ast.CallExpr); isCall && f.CalleeFunc(call) == a.helper {
+				if ob := kit.ObjOf(info, as.Lhs[0]); ob != nil && c15IsNEC(ob.Type()) {
+					return []kit.S{s.Set("t:"+kit.VarID(ob), "fresh")}
+				}
+				m.undec("%s: the exported root is not kept in a variable", f.Str(as))
+				return []kit.S{s}
+			}
 		}
 		if len(as.Lhs) != len(as.Rhs) {
 			return []kit.S{s}
@@ -1213,4 +1262,100 @@ func c15ErrPropFunc(c *kit.Ctx, a *c15Anchors, r1 *kit.Rule, f *kit.Func, canFai
 		}
 	}
 	m.settle(o, "%d failing call(s); every exit after a failure reports it", len(order))
+}
+
+// c15ResultNEC returns the variable that holds the NodeEdgeChildren a function
+// returns by value: the named result, or the one local every return hands back.
+func c15ResultNEC(f *kit.Func) *types.Var {
+	if f.Type.Results == nil {
+		return nil
+	}
+	info := f.Info()
+	idx := -1
+	i := 0
+	for _, fl := range f.Type.Results.List {
+		t := info.TypeOf(fl.Type)
+		_, isPtr := t.(*types.Pointer)
+		n := len(fl.Names)
+		if n == 0 {
+			n = 1
+		}
+		if !isPtr && c15IsNEC(t) {
+			if len(fl.Names) == 1 {
+				if v, ok := info.Defs[fl.Names[0]].(*types.Var); ok {
+					return v
+				}
+			}
+			idx = i
+		}
+		i += n
+	}
+	if idx < 0 {
+		return nil
+	}
+	var res *types.Var
+	same := true
+	ast.Inspect(f.Body, func(n ast.Node) bool {
+		if _, ok := n.(*ast.FuncLit); ok {
+			return false
+		}
+		if r, ok := n.(*ast.ReturnStmt); ok && idx < len(r.Results) {
+			v, ok := kit.ObjOf(info, r.Results[idx]).(*types.Var)
+			if !ok {
+				if _, isLit := ast.Unparen(r.Results[idx]).(*ast.CompositeLit); !isLit {
+					same = false
+				}
+				return true
+			}
+			if res != nil && res != v {
+				same = false
+			}
+			res = v
+		}
+		return true
+	})
+	if !same {
+		return nil
+	}
+	return res
+}
+
+// helperIsNode: the expression denotes the node the export helper works on:
+// the *NodeEdgeChildren parameter, or (by-value shape) the returned variable
+// or the NodeEdge parameter it is built from.
+func (a *c15Anchors) helperIsNode() func(ast.Expr) bool {
+	info := a.helper.Info()
+	isN := c15IsVar(info, a.helperNode)
+	if !a.helperByValue {
+		return isN
+	}
+	// the result must be built from the parameter: N.NodeEdge = in  /  N = NEC{NodeEdge: in}
+	built := false
+	ast.Inspect(a.helper.Body, func(n ast.Node) bool {
+		as, ok := n.(*ast.AssignStmt)
+		if !ok || len(as.Lhs) != len(as.Rhs) {
+			return true
+		}
+		for i, l := range as.Lhs {
+			if sel, ok := ast.Unparen(l).(*ast.SelectorExpr); ok && sel.Sel.Name == "NodeEdge" && isN(sel.X) && kit.ObjOf(info, as.Rhs[i]) == a.helperIn {
+				built = true
+			}
+			if isN(l) {
+				if cl, ok := ast.Unparen(as.Rhs[i]).(*ast.CompositeLit); ok {
+					for _, el := range cl.Elts {
+						if kv, ok := el.(*ast.KeyValueExpr); ok {
+							if k, ok := kv.Key.(*ast.Ident); ok && k.Name == "NodeEdge" && kit.ObjOf(info, kv.Value) == a.helperIn {
+								built = true
+							}
+						}
+					}
+				}
+			}
+		}
+		return true
+	})
+	if !built {
+		return isN
+	}
+	return func(e ast.Expr) bool { return isN(e) || kit.ObjOf(info, ast.Unparen(e)) == a.helperIn }
 }
